@@ -1491,3 +1491,40 @@ def rt_nonlocal_intermediate(req):
 
 
 RT['nonlocal_intermediate'] = rt_nonlocal_intermediate
+
+
+def rt_annotate_bound_cache(req):
+    """C18 ("applying annotate after a keyword/positional modifier updates what that modifier advertises", history
+    independence): after `annotate` was applied to a class-level modifiers wrapper, the method looked up on an instance
+    that had been asked before advertises the annotation at once — with the cyclic collector switched off, so that the
+    answer cannot depend on whether a collection happened in between (D98)"""
+    import gc
+    from sigtools import modifiers, specifiers
+    problems = []
+    was = gc.isenabled()
+    gc.disable()
+    try:
+        with warnings.catch_warnings():
+            warnings.simplefilter('ignore')
+            for dl, deco in (("kwoargs('b')", lambda: modifiers.kwoargs('b')), ("posoargs('self', 'a')", lambda: modifiers.posoargs('self', 'a')),
+                             ('autokwoargs', lambda: modifiers.autokwoargs)):
+                for held in (False, True):
+                    def k(self, a, b=1): pass
+                    C = type('C', (object,), {'k': deco()(k)})
+                    c = C()
+                    keep = c.k if held else None
+                    before = str(specifiers.signature(c.k))
+                    modifiers.annotate(a=int)(C.__dict__['k'])
+                    cls_after = str(specifiers.signature(C.k))
+                    after = str(specifiers.signature(c.k))
+                    fresh = str(specifiers.signature(C().k))
+                    if after != fresh or 'a: int' not in after:
+                        problems.append('annotate-stale-bound: %s method, instance asked before annotate(a=int) was applied (%s): class-level %s, that instance now %s (before %s), a new instance %s' % (
+                            dl, 'bound wrapper still held by the caller' if held else 'nothing held', cls_after, after, before, fresh))
+    finally:
+        if was:
+            gc.enable()
+    return ('ok', tuple(problems[:4]), 'annotate_bound_cache')
+
+
+RT['annotate_bound_cache'] = rt_annotate_bound_cache
